@@ -38,6 +38,33 @@ theorem forall_vacuous (w : World) (β : Env) (v ty inVar : String) (f : Fm)
   intro β' hβ'
   exact absurd hβ' (h β')
 
+/-- an existential quantifier over an empty domain is false, whatever its body -/
+theorem exists_empty (w : World) (β : Env) (v ty inVar : String) (f : Fm)
+    (h : ∀ β', ¬ TreeInst w β v ty inVar β') : ¬ Sat w β (.ex v ty inVar none f) := by
+  simp only [Sat]
+  rintro ⟨β', hβ', _⟩
+  exact h β' hβ'
+
+/-- quantifier duality of the specification, with or without a match expression:
+`not forall x: φ` means `exists x: not φ` -/
+theorem not_forall_iff (w : World) (β : Env) (v ty inVar : String) (m : Option (List MTree)) (f : Fm) :
+    Sat w β (.neg (.all v ty inVar m f)) ↔ Sat w β (.ex v ty inVar m (.neg f)) := by
+  cases m <;> simp only [Sat] <;> constructor
+  · intro h; apply Classical.byContradiction; intro hc
+    exact h (fun β' hβ' => Classical.byContradiction fun hn => hc ⟨β', hβ', hn⟩)
+  · rintro ⟨β', hβ', hn⟩ h; exact hn (h β' hβ')
+  · intro h; apply Classical.byContradiction; intro hc
+    exact h (fun β' hβ' => Classical.byContradiction fun hn => hc ⟨β', hβ', hn⟩)
+  · rintro ⟨β', hβ', hn⟩ h; exact hn (h β' hβ')
+
+theorem not_exists_iff (w : World) (β : Env) (v ty inVar : String) (m : Option (List MTree)) (f : Fm) :
+    Sat w β (.neg (.ex v ty inVar m f)) ↔ Sat w β (.all v ty inVar m (.neg f)) := by
+  cases m <;> simp only [Sat] <;> constructor
+  · intro h β' hβ' hs; exact h ⟨β', hβ', hs⟩
+  · rintro h ⟨β', hβ', hs⟩; exact h β' hβ' hs
+  · intro h β' hβ' hs; exact h ⟨β', hβ', hs⟩
+  · rintro h ⟨β', hβ', hs⟩; exact h β' hβ' hs
+
 /-! non-vacuity: `forall <d> d in start: (= d "1")` and `exists …` on the tree `<start>(<d>("1"), <d>("0"))`;
 a node with 30 children whose last child is the only witness -/
 def gEx : Grammar := [("<start>", [["<d>", "<d>"]]), ("<d>", [["0"], ["1"]])]
